@@ -87,6 +87,8 @@ fn refine(mut props: Vec<&'static str>, mis: &Mismatch) -> Vec<&'static str> {
         MisKind::CellPen | MisKind::HPen => props.push("C08"),
         MisKind::HTabs => props.push("C18"),
         MisKind::HSaved => props.push("C17"),
+        // the wrap-pending position entered or left other than the model allows
+        MisKind::PendingCursor | MisKind::HPending => props.push("C02"),
         _ => {}
     }
     props.sort();
